@@ -220,7 +220,7 @@ def check_level(sc, o, steps, parent, outs_list, prefix, fails):
                                 f"value {outs[l].get('value')!r}, state {nres['state']!r}", s)
         # every API call under this step belongs to one of its evaluations
         for c in my_calls:
-            if not any(t["path"] == c["path"] and t["tgt"] == ["fn", "res"] for t in mine):
+            if not any(t["path"] == c["path"] and t["tgt"][0] == "fn" and t["tgt"][1] in m.RES_FNS for t in mine):
                 bad("API call that belongs to no evaluation of the step's Logic", f"{(c['method'], c['name'], c['path'])}", s)
 
 
@@ -234,6 +234,11 @@ def oracle(sc, o):
         if o["trace"] or o["calls"]:
             fails.append(("Logic evaluated although the workflow's steps are not ready",
                           f"{[t['tgt'] for t in o['trace']]} calls {[(c['method'], c['name']) for c in o['calls']]}", None))
+        # a Workflow in which every `steps.<label>` reference (expressions ROOTED at `steps`) names an earlier step,
+        # labels are distinct and every Logic exists must be run: its steps see their dependencies' values
+        if not sc.get("edit") and not m.simulate(sc).get("not_ready"):
+            fails.append(("valid workflow rejected at prepare: a step got a dependency its expressions do not have",
+                          f"steps_ready is {o['prepared']['ready']}; prepared steps {o['prepared']['steps']}", None))
         return fails
     if sc.get("edit"):
         return fails
@@ -342,6 +347,37 @@ def special_scenarios():
                                {"label": "tail", "inputs": [["d", ["S", "dep", []]]], "logic": ["fn", "echo"]}]
                 sc["cell"] = f"hidden-ref form={form} site={site} src={cls}"
                 yield sc
+    # (2z) paths over parent / inputs / value that merely CONTAIN a segment named `steps` (or `num_steps`, `steps_total`)
+    #      followed by the label of an existing / a later / an unknown step are not references
+    trig = {"spec": {"steps": {l: {"image": f"img-{l}", "flag": False, "lst": [1, 2], "sel": "one"}
+                               for l in ("other", "later", "build")},
+                     "num_steps": {"other": 3}, "steps_total": 2}}
+    for lab in ("other", "later", "build"):
+        for cls in ("ok", "skip", "retry7", "permfail"):
+            for site in ("inputs", "inputs-num", "skip", "foreach", "switch", "switch-inputs", "state"):
+                sc = copy.deepcopy(base)
+                sc["trigger"] = copy.deepcopy(trig)
+                dep = {"label": "dep", "inputs": [["k", C(1)]], "logic": ["fn", "echo"]}
+                if site == "inputs":
+                    dep["inputs"].append(["img", ["P", ["spec", "steps", lab, "image"]]])
+                elif site == "inputs-num":
+                    dep["inputs"] += [["n", ["P", ["spec", "num_steps", "other"]]], ["t", ["P", ["spec", "steps_total"]]]]
+                elif site == "skip":
+                    dep["skip"] = ["P", ["spec", "steps", lab, "flag"]]
+                elif site == "foreach":
+                    dep["foreach"] = [["P", ["spec", "steps", lab, "lst"]], "item"]
+                elif site == "switch":
+                    dep["logic"] = ["switch", ["P", ["spec", "steps", lab, "sel"]], [["one", ["fn", "echo"], False]]]
+                elif site == "switch-inputs":
+                    dep["inputs"].append(["cfg", C({"steps": {lab: "one"}})])
+                    dep["logic"] = ["switch", ["I", ["cfg", "steps", lab]], [["one", ["fn", "echo"], False]]]
+                else:
+                    dep["inputs"].append(["steps", C({lab: 5})])
+                    dep["state"] = [["s", ["V", ["got", "steps", lab]]]]
+                sc["steps"] = [{"label": "other", "inputs": [["cls", C(cls)]], "logic": ["fn", "bycls"]}, dep,
+                               {"label": "later", "inputs": [["d", ["S", "dep", []]]], "logic": ["fn", "echo"]}]
+                sc["cell"] = f"steps-segment label={lab} site={site} other={cls}"
+                yield sc
     # (2a) `steps` used AS A WHOLE: it must hold exactly the referenced steps (not more: no other step's, no other
     #      run's, no other workflow's values)
     for which in ("aaa", "bbb", "both", "none"):
@@ -409,7 +445,7 @@ def scenarios(ctx: Ctx):
     special = list(special_scenarios())
     if ctx.quick():
         ctx.rng.shuffle(special)
-        special = sorted(special[:80], key=lambda x: x["cell"])
+        special = sorted(special[:100], key=lambda x: x["cell"])
     for sc in special:
         yield sc
     grid = list(grid_scenarios())
@@ -418,7 +454,7 @@ def scenarios(ctx: Ctx):
         grid = grid[:120]
     for sc in grid:
         yield sc
-    for _ in range(200 if ctx.quick() else 4000):
+    for _ in range(180 if ctx.quick() else 4000):
         yield m.rand_scenario(ctx.rng)
 
 
